@@ -65,6 +65,7 @@ type PrintCtx struct {
 	prefix string
 
 	inGroupedMode bool
+	skipComma     bool // JSON: the next attribute is the first member of a nested object
 
 	// curdir string
 
